@@ -33,7 +33,6 @@ RULE = (
 )
 ASSUMPTIONS = [
     "'the entire preprocessed text' is PLSSDesc.pp_desc after the same parse",
-    "under a *deduced* layout the clean-up of edge separators/connectors documented for cleanup_desc may apply to the fallback tract",
 ]
 _p = None
 EDGE = set(',;:-–— \t\n.')
@@ -241,7 +240,7 @@ def fallback_class(acc, cls, text, extra=None):
             acc.violation('fallback_not_whole_text', f"C11:fallback_not_whole_text:{cls}:{text}", case,
                           got=tr[0].desc, exp=d.pp_desc)
             return
-    elif not edge_only(d.pp_desc, tr[0].desc):
+    elif not exact:
         acc.violation('fallback_not_whole_text', f"C11:fallback_not_whole_text:{cls}:{text}", case,
                       got=tr[0].desc, exp=d.pp_desc)
         return
